@@ -1,34 +1,45 @@
-import TinsModel.Wire.Iface
+import TinsModel.Wire.Ip6.Ipv6
 /-
-  Family interface of `Ip6`: IPv6 (+ extension headers) (stub: no class of this family is modelled yet).
-  A family module exports, in namespace `Tins.Wire.Ip6`:
-    Obj, classes, parse, info, hdr, trl, write, mk, apply   (see TinsModel/Wire/Iface.lean)
+  Family interface of `Ip6`: IPv6 with its extension headers (see TinsModel/Wire/Iface.lean).
 -/
 namespace Tins.Wire.Ip6
 
 inductive Obj
-  | unit
+  | ip6 (p : Ipv6)
 deriving Repr
 
 /-- C++ class names whose parsing constructor this family models -/
-def classes : List String := []
+def classes : List String := ["IPv6"]
 
-/-- the parsing constructor `cls(buffer, total_sz)` (or `from_bytes`) -/
-def parse (_cls : String) (_b : Bytes) : Out (Obj × Inner) := .throw .stdOther
+/-- the parsing constructor `cls(buffer, total_sz)` -/
+def parse (cls : String) (b : Bytes) : Out (Obj × Inner) :=
+  if cls == "IPv6" then (Ipv6.parse b) >>= fun (p, i) => pure (.ip6 p, i)
+  else .throw .stdOther
 
 /-- (actual class name, getter dump) -/
-def info (_o : Obj) : String × Fields := ("", [])
+def info : Obj → String × Fields
+  | .ip6 p => ("IPv6", p.fields)
 
-def hdr (_o : Obj) : Nat := 0
+def hdr : Obj → Nat
+  | .ip6 p => p.hdr
+
 def trl (_o : Obj) (_innerSize : Nat) : Nat := 0
 
 /-- `write_serialization(buffer, total_sz)` on the layer's region -/
-def write (_cx : Ctx) (_o : Obj) (region : Bytes) : Out Bytes := .ok region
+def write (cx : Ctx) : Obj → Bytes → Out Bytes
+  | .ip6 p, region => p.write cx region
 
-/-- public (non-parsing) constructors: `new <cls> args…` -/
-def mk (_cls : String) (_args : List String) : Out Obj := .throw .stdOther
+/-- public (non-parsing) constructors: `push IPv6 [dst src]` -/
+def mk (cls : String) (args : List String) : Out Obj :=
+  match cls, args with
+  | "IPv6", [] => .ok (.ip6 (Ipv6.create (List.replicate 16 0) (List.replicate 16 0)))
+  | "IPv6", [d, s] => match parseHexN 16 d, parseHexN 16 s with
+    | some d, some s => .ok (.ip6 (Ipv6.create d s))
+    | _, _ => .throw .stdOther
+  | _, _ => .throw .stdOther
 
-/-- one API call on the object: setters, add/remove option … -/
-def apply (_o : Obj) (_op : List String) : Out Obj := .throw .stdOther
+/-- one API call on the object: setters, add_header … -/
+def apply : Obj → List String → Out Obj
+  | .ip6 p, op => (p.apply op) >>= fun x => pure (.ip6 x)
 
 end Tins.Wire.Ip6
